@@ -29,7 +29,13 @@ type Msg struct {
 }
 
 // stripTrailer removes the 12-byte storage trailer of a saved value.
+// plainRecords: the world of the running case stores bare packets (set by newH).
+var plainRecords bool
+
 func stripTrailer(v []byte) []byte {
+	if plainRecords {
+		return v
+	}
 	if len(v) < 12 {
 		return nil
 	}
